@@ -39,7 +39,7 @@ BUDGET_S = {'quick': 100, 'thorough': 1500}
 
 def bounds(tier):
     n = 250 if tier == 'quick' else 6000
-    return {'arith_terms_per_type': n, 'canonicity_pairs_per_type': n, 'prop_formulas': n, 'binder_terms': 60, 'depth': 3}
+    return {'arith_terms_per_type': n, 'canonicity_pairs_per_type': n, 'prop_formulas': n, 'binder_terms': 22, 'monomial_sums': 'all sums of 2 and 3 of 12 monomials over x y (degree <= 4), every order and nesting, nat and real', 'depth': 3}
 
 
 def setup(tier, seed):
@@ -291,6 +291,15 @@ def run_binder(u, out):
     terms = [Lambda(x, x + Nat(0)), Lambda(x, Lambda(y, (x + Nat(0)) * (y + Nat(0)))), Forall(x, Eq(x + Nat(0), x)), Exists(x, Eq(f(x + Nat(0)), y)),
              Comb(Lambda(x, x + y), z + Nat(0)), Lambda(x, f(x)), Lambda(x, g(y, x)), Lambda(y, Lambda(x, g(x, y + Nat(0)))), f(Nat(0) + x), Lambda(x, Comb(Lambda(y, y + x), x)),
              Forall(x, Forall(y, Eq(x + y + Nat(0), y + x))), Lambda(x, Nat(0) + (Nat(0) + x)), Comb(Lambda(x, Lambda(y, x + y)), y), Lambda(x, f(Comb(Lambda(z, z + Nat(0)), x)))]
+    # binders whose recorded name clashes with a free variable of the body (as produced by capture-avoiding
+    # substitution under a binder), shadowed binders of the same name, and the same under quantifiers
+    u, w = Var('u_', NatType), Var('w_', NatType)
+    ab = lambda nm, v, body: Abs(nm, NatType, body.abstract_over(v))      # binder named nm regardless of the free variables of body
+    allc = lambda a: Forall(x, Eq(x, x)).fun(a)
+    exc = lambda a: Exists(x, Eq(x, x)).fun(a)
+    terms += [ab('x', u, u + Nat(0) + x), allc(ab('x', u, Eq(u + Nat(0), x))), ab('y', w, ab('x', u, u + Nat(0) + w + x)),
+              ab('x', w, ab('x', u, u + Nat(0) + w)), ab('x', u, f(u) + (x + Nat(0))), exc(ab('y', u, Eq(Nat(0) + u, y + x))),
+              ab('x', w, ab('y', u, g(w + Nat(0), u) + (x + y))), Comb(ab('x', w, ab('x', u, w + u + x)), x + Nat(0))]
     rws = [('add_0_right', rewr_conv('add_0_right')), ('add_0_left', rewr_conv('add_0_left')), ('add_comm', rewr_conv('add_comm')), ('beta', beta_conv()), ('eta', eta_conv()),
            ('norm_full', nat.norm_full())]
     combs = [('top_conv', top_conv), ('bottom_conv', bottom_conv), ('top_sweep_conv', top_sweep_conv), ('abs_conv', abs_conv), ('arg_conv', arg_conv), ('binop_conv', binop_conv),
@@ -306,6 +315,63 @@ def run_binder(u, out):
     out['samples'].append({'binder_term': str(terms[1])})
 
 
+def mono_pool(Tn):
+    from kernel.type import NatType, RealType
+    from kernel.term import Var, Number, Nat
+    from kernel import term as T
+    ty = {'nat': NatType, 'real': RealType}[Tn]
+    x, y = Var('x', ty), Var('y', ty)
+    P = lambda a, k: T.nat_power(ty)(a, Nat(k))
+    two = Number(ty, 2)
+    return [x, y, P(x, 2), x * y, P(y, 2), P(x, 2) * y, x * P(y, 2), P(x, 3), two * x, two, P(x * y, 2), two * P(x, 2)]
+
+
+def mono_sums(Tn):
+    """All sums of 2 and 3 distinct monomials from the pool, in every order and both nestings: one group per subset."""
+    pool = mono_pool(Tn)
+    groups = []
+    for k in (2, 3):
+        for sub in itertools.combinations(range(len(pool)), k):
+            ts = []
+            for perm in itertools.permutations(sub):
+                ms = [pool[i] for i in perm]
+                if k == 2:
+                    ts.append(ms[0] + ms[1])
+                else:
+                    ts.append(ms[0] + ms[1] + ms[2])
+                    ts.append(ms[0] + (ms[1] + ms[2]))
+            groups.append(ts)
+    return groups
+
+
+def run_mono(u, out):
+    """Canonicity under monomial order: every arrangement of the same sum of monomials has the same normal form
+    (the arrangements are equal by associativity/commutativity of +, which z3 re-proves for one pair per group)."""
+    _, Tn, lo, hi = u
+    from kernel.term import Eq
+    name, cv = arith_conv(Tn)
+    groups = mono_sums(Tn)
+    for gi in range(lo, min(hi, len(groups))):
+        ts = groups[gi]
+        rec = {'part': 'mono', 'T': Tn, 'group': gi}
+        r0 = check_conv(name, cv, ts[0], out, dict(rec, which=0))
+        if r0 is None:
+            continue
+        for j in range(1, len(ts)):
+            out['evals'] += 1
+            st, pt = apply_conv(name, cv, ts[j])
+            if st != 'eq':
+                continue
+            out['keys'].add('%s|%r' % (name, ts[j]))
+            if pt.prop.rhs != r0:
+                v = oracle().valid([], Eq(ts[0], ts[j]))
+                if v.status == 'valid':
+                    out['cex'].append(dict(rec, kind='conv-canonical:' + name, which=j,
+                                           detail='%s: %s and %s are equal for all values but normalise to %s and %s' % (name, ts[0], ts[j], r0, pt.prop.rhs)))
+                    break
+    out['samples'].append({'conversion': name, 'monomial_sum': str(groups[lo][0])})
+
+
 # ------------------------------------------------------------------ units / replay
 
 def units(tier, seed):
@@ -317,6 +383,10 @@ def units(tier, seed):
     for lo in range(0, n, 25):
         us.append(('prop', tier, seed, lo, 25))
     us.append(('binder', tier, seed))
+    for Tn in ('nat', 'real'):
+        ng = len(mono_sums(Tn))
+        for lo in range(0, ng, 36):
+            us.append(('mono', Tn, lo, lo + 36))
     random.Random(seed).shuffle(us)
     return us
 
@@ -327,6 +397,8 @@ def run_unit(u):
         run_arith(u, out)
     elif u[0] == 'prop':
         run_prop(u, out)
+    elif u[0] == 'mono':
+        run_mono(u, out)
     else:
         run_binder(u, out)
     o = ORACLE
@@ -349,6 +421,9 @@ def replay(c):
     elif part == 'prop':
         run_prop(('prop', 'quick', c['seed'], c['lo'], c['k'] + 1), out)
         match = [x for x in out['cex'] if x['kind'] == c['kind'] and x['k'] == c['k']]
+    elif part == 'mono':
+        run_mono(('mono', c['T'], c['group'], c['group'] + 1), out)
+        match = [x for x in out['cex'] if x['kind'] == c['kind']]
     else:
         run_binder(('binder', 'quick', 0), out)
         match = [x for x in out['cex'] if x['kind'] == c['kind'] and x['term'] == c['term'] and x['rw'] == c['rw'] and x['comb'] == c['comb']]
